@@ -37,7 +37,7 @@ def _rowdict(r, alt):
 
 def gen_plan(base_seed, i, tier):
     rng = common.rng_for(base_seed, "C12", i)
-    pool = common.pick_rows(rng, rng.randint(2, 5), {"mcs-based": 3, "rule-based": 3, "input-balanced": 1, "declined": 1})
+    pool = common.pick_rows(rng, rng.randint(2, 5), {"mcs-based": 3, "rule-based": 3, "input-balanced": 1, "declined": 1, "mapped": 2})
     alts = common.pick_rows(rng, len(pool), {"rule-based": 3, "input-balanced": 1, "mcs-based": 1})
     two_cols = rng.random() < 0.35
     steps = []
@@ -59,6 +59,8 @@ def gen_plan(base_seed, i, tier):
                 "n_jobs": rng.choice([1, 1, 4]),
                 "threshold_mode": rng.choice(["zero", "zero", "zero", "seen_below", "seen_equal", "seen_above", "one"]) if s > 0 else rng.choice(["zero", "zero", "one"]),
                 "reaction_col": (rng.choice(["reaction", "rxn"]) if s > 0 else "reaction") if two_cols else "reaction",
+                "threshold_via": rng.choice(["ctor", "ctor", "assign"]),
+                "remove_aam": rng.choice([True, True, True, False]),
             },
             "sched_seed": rng.getrandbits(40),
         }
@@ -95,6 +97,13 @@ def _run(rows, config, sched_seed, cache, **simkw):
     sim.update({k: v for k, v in simkw.items() if v is not None})
     cfg = {"batch_size": config.get("batch_size"), "n_jobs": config.get("n_jobs", 1), "threshold": config.get("threshold", 0),
            "reaction_col": config.get("reaction_col", "reaction"), "cache": cache}
+    assign = {}
+    if config.get("threshold_via") == "assign":
+        assign["confidence_threshold"] = None  # value filled in by make_balancer
+    if config.get("remove_aam") is False:
+        assign["remove_aam"] = False
+    if assign:
+        cfg["assign"] = assign
     source = "dict" if rows and isinstance(rows[0], dict) else "list"
     return runner.run_once({"rows": rows, "source": source, "config": cfg, "sim": sim})
 
